@@ -17,10 +17,13 @@ typedef struct { lzma_ret ret; vbuf out; uint64_t total_in; bool init_failed; bo
 
 static void lres_free(lres *l) { vbuf_free(&l->out); }
 
+static slice_plan g_plan_override; static bool g_plan_override_on;
+
 static void run_lib(dec_spec *s, const uint8_t *in, size_t n, lzma_action fin, lres *l)
 {
 	memset(l, 0, sizeof(*l));
 	slice_plan p = { .mode = SL_WHOLE, .final_action = fin, .continue_informational = true };
+	if (g_plan_override_on) { p = g_plan_override; p.final_action = fin; p.continue_informational = true; }
 	dec_result d;
 	dec_run(s, NULL, in, n, &p, &d);
 	l->ret = d.init_failed ? d.init_ret : d.ret;
@@ -223,7 +226,7 @@ static bool field_is_payload(const rd_result *R, size_t off, int *kind_out)
 	return false;
 }
 
-typedef struct { int fmt; bool has_check; bool multi; const uint8_t *plain; size_t plain_n; const rd_result *R0; const char *desc; uint64_t idx; size_t orig_n; } c05_ctx;
+typedef struct { int fmt; bool has_check; bool multi; const uint8_t *plain; size_t plain_n; const rd_result *R0; const char *desc; uint64_t idx; size_t orig_n; const uint8_t *orig; } c05_ctx;
 
 // Decode damaged file `d` with all applicable decoders and apply the oracle.
 // dmg_off = offset of the (first) damaged byte or (size_t)-1 for truncation.
@@ -246,7 +249,19 @@ static void c05_probe(const c05_ctx *c, const uint8_t *d, size_t n, const char *
 		dec_spec s; dec_spec_for(&s, decs[k], NULL);
 		if (c->multi || c->fmt == F_LZ) s.flags |= LZMA_CONCATENATED;
 		if (decs[k] == D_ALONE) s.flags = 0;
+		// variants (sampled by a hash of the damaged bytes so that every base file sees all of them):
+		//  - a reused handle: the same lzma_stream decoded the undamaged file first, no lzma_end() in between
+		//  - the input arrives in small random pieces / everything with LZMA_RUN and then LZMA_FINISH without input
+		uint64_t hv = vhash(d, n, 0x5eed + (uint64_t)k);
+		if ((hv & 3) == 0 && decs[k] != D_STREAM_MT) { s.warm_in = c->orig; s.warm_n = c->orig_n; hx_count("reused_handle_probes", 1); }
+		g_plan_override_on = false;
+		if (((hv >> 2) & 3) == 0) {
+			memset(&g_plan_override, 0, sizeof(g_plan_override));
+			g_plan_override.mode = SL_RANDOM; g_plan_override.seed = hv; g_plan_override.max_in = 1 + (hv >> 8) % 7; g_plan_override.max_out = 4096;
+			g_plan_override_on = true; hx_count("sliced_probes", 1);
+		}
 		lres L; run_lib(&s, d, n, LZMA_FINISH, &L);
+		g_plan_override_on = false;
 		hx_eval();
 		bool success = lib_accepts(&L) && (L.total_in == n || (c->fmt == F_LZ));
 		if (success) {
@@ -318,7 +333,7 @@ static void c05_case(uint64_t idx)
 		hx_count("base_files_skipped", 1);
 		goto out;
 	}
-	c05_ctx c = { .fmt = fmt, .has_check = has_check, .multi = multi, .plain = plain.p, .plain_n = plain.n, .R0 = &R0, .desc = desc, .idx = idx, .orig_n = data.n };
+	c05_ctx c = { .fmt = fmt, .has_check = has_check, .multi = multi, .plain = plain.p, .plain_n = plain.n, .R0 = &R0, .desc = desc, .idx = idx, .orig_n = data.n, .orig = data.p };
 	// the undamaged file must decode (sanity of the harness itself)
 	c05_probe(&c, data.p, data.n, "undamaged", (size_t)-1, false);
 	uint8_t *d = malloc(data.n + 64);
